@@ -108,8 +108,13 @@ def eval_both(expr, gvals, acc, api, builtins=False, locals_=None, case=None, ki
                 g2 = dict(gvals)
                 try:
                     with core.alarm(10):
-                        evaluate_expression(expr, {'globals': g2, 'logFn': None}, dict(locals_) if locals_ is not None else None, builtins)
+                        dv = evaluate_expression(expr, {'globals': g2, 'logFn': None}, dict(locals_) if locals_ is not None else None, builtins)
                     acc.count('domain_error_cases_evaluated')
+                    if not (dv is None or isinstance(dv, (bool, int, float, str, list, dict, datetime.date, re.Pattern)) or callable(dv)):
+                        # ... and a value of the language: one of the nine types (a host complex number, a Decimal ... is none of them)
+                        acc.violation(kind + '-domain-error-yields-a-non-value', f'expr={json.dumps(expr, default=repr)[:400]} operands={ {k: v for k, v in gvals.items() if len(k) == 2}!r}: '
+                                      f'{type(dv).__name__} {dv!r:.80}', case or {'expr': expr, 'globals': refval.enc({k: v for k, v in gvals.items() if k in ('aa', 'bb')})})
+                        return 'violation'
                 except core.CaseTimeout:
                     acc.timeouts += 1
                 except rt_err:
@@ -391,6 +396,23 @@ def run_alias(spec, acc, api):
                 acc.count('shadow_checks')
                 if r4 is not None and alias != 'if':
                     acc.violation('builtin-wins-over-non-function-binding', f'{alias} bound to a string: {r4!r}', {'alias': alias})
+    # the keywords true / false / null are literals: a variable of that name (a host global, a parameter, an assignment `true = 0` the
+    # parser accepts) never changes what the literal means - in either mode, before and after such a binding exists
+    V = lambda n: {'variable': n}  # noqa: E731
+    kw_exprs = [V('true'), V('false'), V('null'), {'function': {'name': 'if', 'args': [V('true'), {'string': 'yes'}, {'string': 'no'}]}},
+                {'binary': {'op': '+', 'left': V('null'), 'right': {'number': 1.0}}}, {'unary': {'op': '!', 'expr': V('false')}},
+                {'binary': {'op': '&&', 'left': V('true'), 'right': V('kept')}}, {'binary': {'op': '==', 'left': V('null'), 'right': V('missing')}},
+                {'function': {'name': 'if', 'args': [V('false'), {'number': 1.0}, V('null')]}}]
+    pollution = {'true': 0, 'false': 1, 'null': 5}
+    for e in kw_exprs:
+        for builtins in (True, False):
+            base_v = evaluate_expression(e, {'globals': {'kept': 'kept'}}, None, builtins)
+            for where, gl, lc in (('globals', dict(pollution, kept='kept'), None), ('locals', {'kept': 'kept'}, dict(pollution)), ('both', dict(pollution, kept='kept'), dict(pollution))):
+                acc.count('keyword_shadowing_checks')
+                got = evaluate_expression(e, {'globals': gl}, lc, builtins)
+                if not same_value(got, base_v):
+                    acc.violation('keyword-changed-by-a-variable', f'{json.dumps(e)} = {got!r} with variables named true/false/null in {where}; {base_v!r} without', {'alias': 'keywords'})
+    acc.case(('keywords',), True)
     acc.sample({'alias_table_checked': dict(list(sorted(ALIASES.items()))[:6])}, limit=1)
 
 
